@@ -75,6 +75,7 @@ def parseIOMut (j : Json) : Except String IOMut := do
   | "reverse" => return .reverse
   | "iadd" => return .iadd (← getNatList j "vs")
   | "imul" => return .imul (← getInt j "k")
+  | "sort" => return .sort (← getNatList j "keys") (← getBool j "rev")
   | _ => throw s!"unknown io mutator {m}"
 
 def parseInitMut (j : Json) : Except String InitMut := do
@@ -91,14 +92,31 @@ def parseInitMut (j : Json) : Except String InitMut := do
   | "register" => return .register (← getNat j "v")
   | _ => throw s!"unknown initializer mutator {m}"
 
+def asAttr (j : Json) : Except String (String × List Nat) := do
+  let a ← j.getArr?
+  match a.toList with
+  | [k, v] => return (← asStr k, ← asList asNat v)
+  | _ => throw "expected [key, [graphs]]"
+
+def getAttrs (j : Json) (k : String) : Except String (List (String × List Nat)) :=
+  match j.getObjVal? k with
+  | .error _ => pure []
+  | .ok Json.null => pure []
+  | .ok v => asList asAttr v
+
 def parseOp (j : Json) : Except String Op := do
   let o ← getStr j "op"
   match o with
   | "newValue" => return .newValue (← getOpt j "name" asStr)
   | "setConst" => return .setConst (← getNat j "v") ((← getOpt j "locked" (fun x => (fromJson? x : Except String Bool))).getD false)
   | "newNode" =>
-    return .newNode (← getStr j "opType") (← getOpt j "name" asStr) (← getOptNatList j "inputs")
-      (← getOpt j "numOutputs" asInt) (← getOpt j "outputs" (asList asNat)) (← getOpt j "graph" asNat)
+    match ← getAttrs j "attrs" with
+    | [] =>
+      return .newNode (← getStr j "opType") (← getOpt j "name" asStr) (← getOptNatList j "inputs")
+        (← getOpt j "numOutputs" asInt) (← getOpt j "outputs" (asList asNat)) (← getOpt j "graph" asNat)
+    | attrs =>
+      return .newNodeAttrs (← getStr j "opType") (← getOpt j "name" asStr) (← getOptNatList j "inputs")
+        (← getOpt j "numOutputs" asInt) (← getOpt j "outputs" (asList asNat)) (← getOpt j "graph" asNat) attrs
   | "newGraph" =>
     return .newGraph (← getNatList j "inputs") (← getNatList j "outputs") (← getNatList j "nodes")
       (← getNatList j "inits")
@@ -119,16 +137,36 @@ def parseOp (j : Json) : Except String Op := do
   | "sortOk" => return .sortOk (← asList asOrder (← j.getObjVal? "orders"))
   | "sortCycle" => return .sortCycle
   | "attrEdit" => return .attrEdit
+  | "sort" => return .sort (← getNat j "g")
+  | "setNodeName" => return .setNodeName (← getNat j "n") (← getOpt j "s" asStr)
+  | "setOpType" => return .setOpType (← getNat j "n") (← getStr j "s")
+  | "clearConst" => return .clearConst (← getNat j "v")
+  | "attrSet" => return .attrSet (← getNat j "n") (← getStr j "key") (← getNatList j "gs")
+  | "attrDel" => return .attrDel (← getNat j "n") (← getStr j "key") (← getBool j "strict")
+  | "attrClear" => return .attrClear (← getNat j "n")
   | _ => throw s!"unknown kernel op {o}"
 
 def parseAny (j : Json) : Except String AnyOp := do
   let o ← getStr j "op"
   match o with
-  | "rauwMany" => return .conv (.rauwMany (← getNatList j "vs") (← getNatList j "rs") (← getBool j "rgo"))
+  | "tapeInitializer" =>
+    return .conv (.tapeInitializer (← getOpt j "g" asNat) (← getOpt j "name" asStr) (← getOpt j "tname" asStr)
+      ((← getOpt j "locked" (fun x => (fromJson? x : Except String Bool))).getD false))
+  | "builderNode" =>
+    return .conv (.builderNode (← getOpt j "g" asNat) (← getStr j "opType") (← getOptNatList j "inputs")
+      (← getNat j "k") (← getOpt j "names" (asList asStr)))
+  | "rauwMany" =>
+    if (← getOpt j "exact" (fun x => (fromJson? x : Except String Bool))).getD false then
+      return .conv (.rauwManyExact (← getNatList j "vs") (← getNatList j "rs") (← getBool j "rgo"))
+    else return .conv (.rauwMany (← getNatList j "vs") (← getNatList j "rs") (← getBool j "rgo"))
   | "renameValues" => return .conv (.renameValues (← getNatList j "vs") (← getStrs j "names"))
   | "replaceNodesAndValues" =>
-    return .conv (.replaceNodesAndValues (← getNat j "g") (← getNat j "ip") (← getNatList j "oldNodes")
-      (← getNatList j "newNodes") (← getNatList j "oldVals") (← getNatList j "newVals"))
+    if (← getOpt j "exact" (fun x => (fromJson? x : Except String Bool))).getD false then
+      return .conv (.replaceNodesAndValuesExact (← getNat j "g") (← getNat j "ip") (← getNatList j "oldNodes")
+        (← getNatList j "newNodes") (← getNatList j "oldVals") (← getNatList j "newVals"))
+    else
+      return .conv (.replaceNodesAndValues (← getNat j "g") (← getNat j "ip") (← getNatList j "oldNodes")
+        (← getNatList j "newNodes") (← getNatList j "oldVals") (← getNatList j "newVals"))
   | _ => return .one (← parseOp j)
 
 def pairsJ (xs : List (Nat × Nat)) : Json :=
@@ -145,7 +183,8 @@ def valueJ (r : ValueS) : Json :=
 
 def nodeJ (r : NodeS) : Json :=
   obj [("inputs", Json.arr (r.inputs.map (optJ natJ)).toArray), ("outputs", natsJ r.outputs),
-    ("graph", optJ natJ r.graph), ("name", optJ Json.str r.name), ("opType", Json.str r.opType)]
+    ("graph", optJ natJ r.graph), ("name", optJ Json.str r.name), ("opType", Json.str r.opType),
+    ("attrs", Json.arr (r.attrs.map (fun p => Json.arr #[Json.str p.1, natsJ p.2])).toArray)]
 
 def sortedStrs (xs : List String) : List String := (xs.toArray.qsort (· < ·)).toList
 
@@ -180,6 +219,14 @@ def deltaJ (w w' : World) : Json :=
     ("graphs", deltaStore graphJ (withExtra w) (withExtra w')),
     ("tensors", deltaStore (optJ Json.str) w.tensors w'.tensors)]
 
+/-- the hypothesis of `C01_sort_step` on the world a `sort` call meets: `Sort.WF (treeOf w g)` -/
+def sortHyp (w : World) : AnyOp → Option Bool
+  | .one (.sort g) =>
+    let t := treeOf w g
+    some (decide (((IrVerif.Sort.nodesOf t).map IrVerif.Sort.Ent.id).Nodup) &&
+      decide (((IrVerif.Sort.allGraphs t).map Prod.fst).Nodup))
+  | _ => none
+
 def runOps (ops : List AnyOp) : List Json :=
   let rec go (w : World) : List AnyOp → List Json
     | [] => []
@@ -188,7 +235,10 @@ def runOps (ops : List AnyOp) : List Json :=
       let (o, k) := match out with
         | .ok => ("ok", "")
         | .raised k => ("raised", k)
-      obj [("o", Json.str o), ("k", Json.str k), ("eq", Json.bool (decide (w' = w))), ("d", deltaJ w w')]
+      obj ([("o", Json.str o), ("k", Json.str k), ("eq", Json.bool (decide (w' = w))), ("d", deltaJ w w')] ++
+          (match sortHyp w op with
+           | some b => [("sortWF", Json.bool b)]
+           | none => []))
         :: go w' rest
   go World.empty ops
 
